@@ -160,3 +160,16 @@ impl<D: DataRef> GLWESecretToRef for GLWESecret<D> {
         }
     }
 }
+
+/// Verification hook (cargo feature `verif-hooks`): install concrete secret coefficients and their
+/// distribution tag without going through a random source.
+#[cfg(feature = "verif-hooks")]
+impl<D: DataMut> GLWESecret<D> {
+    pub fn verif_data_mut(&mut self) -> &mut ScalarZnx<D> {
+        &mut self.data
+    }
+
+    pub fn verif_set_dist(&mut self, dist: Distribution) {
+        self.dist = dist;
+    }
+}
